@@ -1,32 +1,141 @@
 import LocustModel.Proto
 import LocustModel.Query.SqlProto
+import LocustModel.Query.Filter
+import LocustModel.Query.FilterFindings
 /-
-  Driver for C03.  Input:  where <rpn> <ncols> <col0 cells> … 
-  Output: ? TAB rows:<ids of kept rows> | err:overflow | SKIP
-  (column 0 is the `id` column; the implementation model of the filter operators is exercised at
-  unit level by the `enc` lines below)
+  Driver for C03.
+    where <rpn> <ncols> <col cells>… <nparts> <part>…
+      part = <start>:<len>:<img>/<img>/…       img = `-` | <section types>;<ops>;<dictionary>
+    like <pattern hex> <string col cells>
+  Output:  <model> TAB <spec> [TAB <finding id>]
+    model = what Query/Filter.lean (the mirror of the engine) predicts: rows:<ids> | err:<kind> | ?
+    spec  = what Query/Sql.lean (Kleene evaluator) demands: rows:<ids> | err:overflow | SKIP
+            SKIP = outside the supported fragment: the specification itself rejects the type combination, or the
+            implementation model predicts an error *value* (TypeError / NotImplemented / FatalError) — the correspondence
+            column then requires the real code to return exactly that error kind.
 -/
 namespace LM.DrvC03
-open LM LM.Proto LM.Sql LM.SqlProto
+open LM LM.Proto LM.Sql LM.SqlProto LM.Filter
 
-def showIds (rows : List Row) : String :=
-  "rows:" ++ showList (fun r => match r.head? with
-    | some (.int i) => toString i | _ => "_") rows
+def showIdList (ids : List Nat) : String := "rows:" ++ showList toString ids
 
-def stepWhere (rpn : String) (cols : List String) : String :=
-  match parseExpr rpn, cols.mapM parseCells with
-  | some e, some cs =>
-      let n := (cs.head?.map List.length).getD 0
-      let rows := transpose cs n
-      match filterRows i2fNative (some e) rows with
-      | .ok kept => "?\t" ++ showIds kept
-      | .overflow => "?\terr:overflow"
-      | .unsupported => "?\tSKIP"
+def idsOf (rows : List Row) : List Nat :=
+  rows.filterMap fun r => match r.head? with | some (.int i) => some i.toNat | _ => none
+
+def parseET (s : String) : ET :=
+  if s = "u8" then .u8 else if s = "u16" then .u16 else if s = "u32" then .u32 else if s = "u64" then .u64
+  else if s = "i64" then .i64 else if s = "f64" then .f64 else if s = "bitvec" then .bitvec
+  else if s = "str" then .str else if s = "null" then .nullT else .other
+
+def parseBits (s : String) : ET :=
+  if s = "8" then .u8 else if s = "16" then .u16 else if s = "32" then .u32 else if s = "64" then .i64
+  else if s = "64u" then .u64 else .other
+
+def parseOp (s : String) : Option COp :=
+  match s.toList with
+  | ['N'] => some .nullable
+  | ['U'] => some .unpack
+  | ['H'] => some .unhex
+  | 'A' :: rest =>
+      match (String.ofList rest).splitOn ":" with
+      | [b, o] => o.toInt?.map fun o => .add (parseBits b) o
+      | _ => none
+  | 'D' :: rest => some (.delta (parseBits (String.ofList rest)))
+  | 'T' :: rest => some (.toI64 (parseBits (String.ofList rest)))
+  | 'L' :: rest => some (.dict (parseBits (String.ofList rest)))
+  | 'Z' :: rest => some (.decomp (parseET (String.ofList rest)))
+  | 'P' :: rest => (String.ofList rest).toNat?.map COp.push
+  | _ => none
+
+def parseImg (s : String) : Option PCol :=
+  if s = "-" then some .absent else
+  match s.splitOn ";" with
+  | [secs, ops, dict] => do
+      let ops ← if ops = "id" then some [] else (ops.splitOn "+").mapM parseOp
+      let dict ← if dict = "-" || dict = "[]" then some [] else (dict.splitOn ",").mapM parseHexBytes?
+      pure (.img { secs := (secs.splitOn ",").map parseET, ops := ops, dict := dict })
+  | _ => none
+
+def parsePart (cols : List (List Val)) (s : String) : Option (Nat × Part) :=
+  match s.splitOn ":" with
+  | start :: len :: rest => do
+      let start ← start.toNat?
+      let len ← len.toNat?
+      let imgs ← ((":".intercalate rest).splitOn "/").mapM parseImg
+      if imgs.length ≠ cols.length then none else
+      pure (start, { len := len, cols := imgs.zip (cols.map fun c => (c.drop start).take len) })
+  | _ => none
+
+/-- Native float operations handed to the model as parameters. -/
+def fpNative : FP :=
+  { i2f := i2fNative
+    encF := fun b y => (Float.ofBits b.toUInt64 - Float.ofInt y).toBits.toNat }
+
+def showErr : Err → String
+  | .type => "err:type" | .notimpl => "err:notimpl" | .fatal => "err:fatal" | .panic => "err:canceled" | .unmodelled => "?"
+
+def showQOut : QOut → String
+  | .rows ids => showIdList ids
+  | .err e => showErr e
+
+def stepWhere (rpn : String) (rest : List String) : String :=
+  match rest with
+  | ncols :: rest =>
+    match ncols.toNat? with
+    | none => "bad-op\tbad-op"
+    | some nc =>
+      match parseExpr rpn, (rest.take nc).mapM parseCells, (rest.drop nc) with
+      | some e, some cs, _nparts :: partToks =>
+          let n := (cs.head?.map List.length).getD 0
+          let rows := transpose cs n
+          match partToks.mapM (parsePart cs) with
+          | none => "bad-op\tbad-op"
+          | some parts =>
+            let model := implQuery fpNative parts e
+            let spec := filterRows i2fNative (some e) rows
+            let specStr := match model, spec with
+              | .err .type, _ | .err .notimpl, _ | .err .fatal, _ => "SKIP"
+              | .err .unmodelled, .ok kept => if anyErrValue fpNative parts e then "SKIP" else showIdList (idsOf kept)
+              | _, .ok kept => showIdList (idsOf kept)
+              | _, .overflow => "err:overflow"
+              | _, .unsupported => "SKIP"
+            let finding := Findings.classify fpNative parts e rows model spec
+            showQOut model ++ "\t" ++ specStr ++ (if finding = "" then "" else "\t" ++ finding)
+      | _, _, _ => "bad-op\tbad-op"
+  | _ => "bad-op\tbad-op"
+
+/-! ### LIKE: reference `%` / `_` matcher (differential only) -/
+
+def likeMatch : List Char → List Char → Bool
+  | [], [] => true
+  | [], _ :: _ => false
+  | '%' :: ps, [] => likeMatch ps []
+  | '%' :: ps, c :: cs => likeMatch ps (c :: cs) || likeMatch ('%' :: ps) cs
+  | '_' :: ps, _ :: cs => likeMatch ps cs
+  | _ :: _, [] => false
+  | p :: ps, c :: cs => p == c && likeMatch ps cs
+termination_by p s => p.length + s.length
+
+def utf8Chars (bs : List UInt8) : List Char :=
+  match String.fromUTF8? (ByteArray.mk bs.toArray) with
+  | some s => s.toList
+  | none => bs.map fun b => Char.ofNat b.toNat
+
+def stepLike (pat : String) (cells : String) : String :=
+  match parseHexBytes? pat, parseCells cells with
+  | some p, some cs =>
+      let pc := utf8Chars p
+      let ids := (List.range cs.length).filter fun i =>
+        match cs.getD i .null with
+        | .str s => likeMatch pc (utf8Chars s)
+        | _ => false
+      "?\t" ++ showIdList ids
   | _, _ => "bad-op\tbad-op"
 
 def step (line : String) : String :=
   match splitTokens line with
-  | "where" :: rpn :: _n :: cols => stepWhere rpn cols
+  | "where" :: rpn :: rest => stepWhere rpn rest
+  | ["like", pat, cells] => stepLike pat cells
   | _ => "bad-op\tbad-op"
 
 end LM.DrvC03
